@@ -35,5 +35,5 @@ JBlind(e) ==
        \A i \in 1..n : SameOutside(outs[i].ser, r.orig, off, klen) /\ Slice(outs[i].ser, off, klen) # Slice(r.orig, off, klen), cls),
      R("C16", "own_check_passes_with_derived_factor", r.setup /\ secretOK /\ \A i \in 1..n : outs[i].ok, \A i \in 1..n : outs[i].check, cls),
      R("C16", "own_check_fails_with_other_factor", r.setup /\ secretOK /\ \A i \in 1..n : outs[i].ok,
-       \A i \in 1..n : ~outs[i].check_random /\ (ins[i].otherday # ins[i].day => ~outs[i].check_other), cls) >>
+       \A i \in 1..n : ~outs[i].check_random /\ ~outs[i].check_equivalent /\ (ins[i].otherday # ins[i].day => ~outs[i].check_other), cls) >>
 =============================================================================
